@@ -730,6 +730,10 @@ impl<'a, 'de: 'a, 'res: 'de, RES: TokenResolver, F: BinaryFlavor>
                 visitor.visit_f64(self.de.config.flavor.visit_f64(self.de.parser.read_f64()?))
             }
             LexemeId::OPEN => visitor.visit_seq(OndemandSeq::new(self.de)),
+            LexemeId::RGB => {
+                let rgb = self.de.parser.read_rgb()?;
+                visitor.visit_seq(ColorSequence::new(rgb))
+            }
             LexemeId::CLOSE | LexemeId::EQUAL => Err(Error::invalid_syntax(
                 "unexpected token encountered",
                 self.de.parser.position(),
